@@ -612,6 +612,63 @@ def t_mem_region(g):
     return dict(template="mem_region:" + order, expect="ok", warm=False, claim="every-cycle")
 
 
+def t_enabled_state(g):
+    """state registers INSIDE the pipelined region whose ENABLE is computed from group inputs (valid-style flag, through
+    logic), group without stall condition, one or two hints in series: retiming must also retime the enable's fan-in.
+    The flag's pipeline registers reset to 0, so no state update happens from reset values while the pipeline fills
+    (state that depends on the grouped inputs is otherwise outside the every-cycle claim)."""
+    r = g.r
+    w = r.choice([1, 2])
+    d = g.pin(w)
+    v = g.pin(0)
+    extra = g.pin(0) if r.random() < 0.5 else None
+    g.emit("pipegroup G")
+    outs = []
+    for p in [d, v] + ([extra] if extra else []):
+        n = g.fresh("g")
+        lit = "0" if p == v else g.rstlit(p)
+        g.emit(f"pipein {n} G {p} rst {lit}")
+        g.rstof[n] = lit
+        outs.append(g.define(n, g.typ[p]))
+    gd, gv = outs[0], outs[1]
+    ge = outs[2] if extra else None
+    # enable = valid AND something (through logic, not the spawned register itself)
+    k = r.random()
+    other = ge if ge is not None and k < 0.5 else g.coerce(gd, 'b')
+    if r.random() < 0.5:
+        other = g.unop(other)
+    en = g.fresh("e")
+    g.emit(f"bin {en} and {gv} {other}")
+    g.define(en, 'b')
+    kind = r.choice(["hold", "acc", "both"])
+    pool = [gd]
+    g.emit(f"enif {en}")
+    if kind in ("hold", "both"):
+        h = g.reg(gd, "reg", rst=True)
+        pool.append(h)
+    if kind in ("acc", "both"):
+        c = g.fresh("c")
+        g.emit(f"loopvar {c} {g.w(gd)}")
+        g.define(c, g.typ[gd])
+        c1 = g.op2(c, gd)
+        if g.typ[c1] != g.typ[gd]:
+            c1 = g.coerce(c1, g.typ[gd])
+        cr = g.reg(c1, "reg", rst=True)
+        g.emit(f"close {c} {cr}")
+        pool.append(cr)
+    g.emit("endenif")
+    x = g.combine(pool) if len(pool) > 1 else g.unop(pool[0])
+    x = g.hint(x)
+    if r.random() < 0.5:
+        x = g.hint(g.unop(x))
+        g.feat.add("hints-in-series")
+    g.out(x)
+    if r.random() < 0.5 and len(pool) > 1:
+        g.out(pool[-1])
+    g.feat.add("state-with-enable-from-group-input"); g.feat.add("group"); g.feat.add("resets")
+    return dict(template="enabled_state:" + kind, expect="ok", warm=False, claim="every-cycle")
+
+
 TEMPLATES = [
     ("stateless", 30, lambda g: t_pipeline(g, ff=False)),
     ("feedforward", 16, lambda g: t_pipeline(g, ff=True)),
@@ -623,6 +680,7 @@ TEMPLATES = [
     ("movable_bwd", 12, t_movable_bwd),
     ("negreg", 14, t_negreg),
     ("mem_region", 8, t_mem_region),
+    ("enabled_state", 10, t_enabled_state),
 ]
 
 
